@@ -490,6 +490,10 @@ class Engine:
             if other == "":
                 return z3.Not(c.nonempty())
             raise Unsupported("CondStr == %r" % (other,))
+        if (isinstance(a, FiltSeq) and b == []) or (isinstance(b, FiltSeq) and a == []):
+            fs = a if isinstance(a, FiltSeq) else b
+            j = z3.Int("fj!%d" % id(fs))
+            return z3.Not(z3.Exists([j], z3.And(j >= 0, j < fs.seq.ln, fs.pred(j))))
         if (isinstance(a, Seq) and isinstance(b, list)) or (isinstance(b, Seq) and isinstance(a, list)):
             sq, ls = (a, b) if isinstance(a, Seq) else (b, a)
             parts = [sq.ln == len(ls)]
@@ -587,6 +591,9 @@ class Engine:
             if v.truth is not None: return v.truth(self)
             return True
         if isinstance(v, (PyObj, HMap, ClassRef, FuncRef, BoundMethod, Builtin)): return True
+        if isinstance(v, FiltSeq):
+            j = z3.Int("fj!%d" % id(v))
+            return z3.Exists([j], z3.And(j >= 0, j < v.seq.ln, v.pred(j)))
         if isinstance(v, Seq): return v.ln > 0
         if isinstance(v, AccList):
             if v.items: return True
@@ -712,6 +719,15 @@ class Engine:
         if isinstance(base, Opaque):
             if base.getitem is None: raise Unsupported("subscript of opaque " + base.tag)
             return base.getitem(self, idx)
+        if isinstance(base, FiltSeq):
+            if not (isinstance(idx, int) and idx == 0): raise Unsupported("FiltSeq[%r]" % (idx,))
+            j = z3.Int("fj!%d" % id(base))
+            ex = z3.Exists([j], z3.And(j >= 0, j < base.seq.ln, base.pred(j)))
+            if not self.decide(ex): raise PyRaise("IndexError", "", node, implicit=True)
+            k = self.fresh("first", "int").z
+            q = z3.Int("fq!%d" % id(base))
+            self.assume(z3.And(k >= 0, k < base.seq.ln, base.pred(k), z3.ForAll([q], z3.Implies(z3.And(q >= 0, q < k), z3.Not(base.pred(q))))))
+            return base.seq.elem(k)
         if isinstance(base, Opt):
             return base.seq.elem(to_z(idx))
         if isinstance(base, Seq):
@@ -772,6 +788,21 @@ class Engine:
         fr = self.frames[-1]
         if isinstance(it, AccList):
             return AccList(it.name + "#" + ast.unparse(x) + "#%d" % len(it.items))
+        if isinstance(it, Seq) and g.ifs and kind == "list" and isinstance(x.elt, ast.Name) and isinstance(g.target, ast.Name) and x.elt.id == g.target.id:
+            saved = dict(fr.locals)
+            def pred(j, it=it, g=g, saved=saved, fr=fr):
+                self.frames.append(Frame(fr.module, fr.cls, dict(saved), fr.fn))
+                npc, nlog = len(self.pc), None
+                try:
+                    self.assign(g.target, it.elem(j))
+                    cs = []
+                    for c in g.ifs:
+                        t = self.truth(self.ev(c))
+                        cs.append(z3.BoolVal(t) if isinstance(t, bool) else t)
+                    return z3.And(*cs)
+                finally:
+                    self.frames.pop()
+            return FiltSeq(it, pred)
         if isinstance(it, Seq):
             if g.ifs or kind != "list": raise Unsupported("filtered comprehension over symbolic sequence")
             saved = dict(fr.locals)
@@ -1334,6 +1365,11 @@ def _type_of(e, v):
 
 def _b_isinstance(e, v, t):
     ts = t if isinstance(t, tuple) else (t,)
+    if isinstance(v, Opaque) and v.cls is None and "isinstance" in v.methods and all(isinstance(o, ClassRef) for o in ts):
+        # symbolic class membership: returned as a term (no fork), the caller's branch decides
+        rs = [v.methods["isinstance"](e, o.cls) for o in ts]
+        rs = [z3.BoolVal(r) if isinstance(r, bool) else r for r in rs]
+        return SV(z3.Or(*rs) if len(rs) > 1 else rs[0], "bool")
     for one in ts:
         if isinstance(one, Builtin) and one.name in _PYTYPES:
             one = _PYTYPES[one.name]
@@ -1416,6 +1452,22 @@ def _noop(e, *a, **k):
     return None
 
 
+def _b_next(e, it, *default):
+    if isinstance(it, FiltSeq):
+        try:
+            return e.getitem(it, 0)
+        except PyRaise as r:
+            if r.etype == "IndexError":
+                if default: return default[0]
+                raise PyRaise("StopIteration", "", None, implicit=True)
+            raise
+    if isinstance(it, list):
+        if it: return it[0]
+        if default: return default[0]
+        raise PyRaise("StopIteration", "", None, implicit=True)
+    raise Unsupported("next() of %s" % type(it).__name__)
+
+
 BUILTINS = {
     "abs": Builtin("abs", _b_abs), "min": Builtin("min", _b_minmax("min")), "max": Builtin("max", _b_minmax("max")),
     "len": Builtin("len", _b_len), "isinstance": Builtin("isinstance", _b_isinstance), "type": Builtin("type", _type_of),
@@ -1428,7 +1480,7 @@ BUILTINS = {
     "sorted": Builtin("sorted", lambda e, x: sorted(e.iterate(x))),
     "str": Builtin("str", lambda e, x="": str(x) if not is_sym(x) else "<fmt>"),
     "bool": Builtin("bool", lambda e, x=False: (lambda t: t if isinstance(t, bool) else SV(t, "bool"))(e.truth(x))),
-    "print": Builtin("print", _noop), "warn": Builtin("warn", _noop),
+    "print": Builtin("print", _noop), "warn": Builtin("warn", _noop), "next": Builtin("next", lambda e, it, *d: _b_next(e, it, *d)),
     "ValueError": Builtin("ValueError", lambda e, *a: Opaque("exc:ValueError")),
     "KeyError": Builtin("KeyError", lambda e, *a: Opaque("exc:KeyError")),
     "RuntimeError": Builtin("RuntimeError", lambda e, *a: Opaque("exc:RuntimeError")),
